@@ -10,6 +10,14 @@ From MafVerif Require Import lib.Base lib.OverlapLib model.Overlap spec.SpecOver
    grouping modes - and its name otherwise *)
 Definition ocls (c : cfg) (r : orec) : ccls := kcls (okeyK c r).
 Definition class_before : ccls -> ccls -> Prop := clt ccls_cmp.
+Example ocls_unfolded c r :
+  ocls c r = {| cbar := if by_barcodes c then Some (rtumor r, rnormal r) else None;
+                cchr := match contigs c with
+                        | [] => CName (rchr r)
+                        | _ :: _ => match index_of (rchr r) (contigs c) with
+                                    | Some n => CRank n | None => CRank 0 end
+                        end |}.
+Proof. reflexivity. Qed.
 
 (* the hypotheses of the property *)
 Definition truthy_records (xss : list (list orec)) : Prop :=
